@@ -146,6 +146,9 @@ class BaseDeferred(metaclass=BaseDeferredMetaclass):
 
     def __mul__(self, rhs):
         if self.typ is int:
+            estimate = self.get_current_best_estimate()
+            if estimate is not self:
+                return estimate * rhs
             return Deferred[self.typ](lambda: LinearPolynomial[self.typ]({self: wait(rhs)}))
         else:
             raise TypeError(f"Don't know how to multiply {self.typ.__name__}")
